@@ -1,9 +1,11 @@
 #!/usr/bin/env python3
 """Evaluate a seeded property-breaking change against the checks.
 
-usage: tools_seed.py <name> <source dir with patch.diff demo.* notes.md> <property id> <check ids, comma separated> [--seeds 0,1]
+usage: tools_seed.py <name> <source dir with patch.diff demo.* notes.md> <property id> <check ids, comma separated> [--seeds 0,1] [--scratch]
 Applies the patch to /repo (never committed), runs the 94 tests, the demonstration and the listed checks, reverts
-the patch, re-runs the demonstration, and records everything in /verif/seeded/<name>/meta.json.
+the patch, re-runs the demonstration, and records everything in /verif/seeded/<name>/meta.json (earlier evaluations
+are kept under "history").  With --scratch the patch is applied to a temporary git worktree of /repo's HEAD under
+/tmp instead (checks run with VERIF_REPO pointing at it), so that /repo stays untouched while other runs read it.
 """
 import glob, json, os, shutil, subprocess, sys, time
 
@@ -12,6 +14,15 @@ seeds = [0]
 if '--seeds' in sys.argv:
     seeds = [int(x) for x in sys.argv[sys.argv.index('--seeds') + 1].split(',')]
 dst = os.path.join('/verif/seeded', name)
+SCRATCH = '--scratch' in sys.argv
+TREE = '/repo'
+if SCRATCH:
+    TREE = '/tmp/seedwt_' + name
+    subprocess.run('git -C /repo worktree remove --force %s; rm -rf %s; git -C /repo worktree prune; '
+                   'git -C /repo worktree add --detach %s %s' % (TREE, TREE, TREE, os.environ.get('SEED_BASE', 'HEAD')), shell=True,
+                   stdout=subprocess.DEVNULL, stderr=subprocess.DEVNULL)
+    # the MATLAB generator reads a git-ignored template that the build / the test suite puts next to it
+    subprocess.run('cp /repo/gtwrap/matlab_wrapper/matlab_wrapper.tpl %s/gtwrap/matlab_wrapper/ 2>/dev/null' % TREE, shell=True)
 os.makedirs(dst, exist_ok=True)
 for f in glob.glob(os.path.join(src, '*')):
     if os.path.isfile(f):
@@ -21,9 +32,12 @@ for f in glob.glob(os.path.join(src, '*')):
 demo = next((f for f in ('demo.py', 'demo.sh') if os.path.exists(os.path.join(dst, f))), None)
 
 
-def sh(cmd, cwd='/repo', timeout=3600, env=None):
+def sh(cmd, cwd=None, timeout=3600, env=None):
+    cwd = cwd or TREE
     e = dict(os.environ)
-    e['PYTHONPATH'] = '/repo'
+    e['PYTHONPATH'] = TREE
+    if SCRATCH:
+        e['VERIF_REPO'] = TREE
     e.update(env or {})
     p = subprocess.run(cmd, cwd=cwd, shell=True, stdout=subprocess.PIPE, stderr=subprocess.STDOUT, timeout=timeout, env=e)
     return p.returncode, p.stdout.decode('utf8', 'replace')
@@ -33,13 +47,19 @@ def run_demo():
     if demo is None:
         return None, 'no demo'
     if demo.endswith('.py'):
-        return sh('/venv/bin/python %s /repo' % os.path.join(dst, demo))
-    return sh('sh %s /repo' % os.path.join(dst, demo))
+        return sh('/venv/bin/python %s %s' % (os.path.join(dst, demo), TREE))
+    return sh('sh %s %s' % (os.path.join(dst, demo), TREE))
 
 
 st = sh('git status --porcelain --untracked-files=no')[1].strip()
 if st:
     sys.exit('repo not clean: ' + st)
+prev = None
+if os.path.exists(os.path.join(dst, 'meta.json')):
+    try:
+        prev = json.load(open(os.path.join(dst, 'meta.json')))
+    except Exception:
+        prev = None
 meta = {'name': name, 'property': pid, 'repo_head': sh('git log --format=%h -1')[1].strip(), 'checks': {}, 'at': time.strftime('%Y-%m-%d %H:%M')}
 rc, out = run_demo()
 meta['demo_on_clean_tree'] = {'rc': rc, 'tail': out[-300:]}
@@ -66,6 +86,17 @@ finally:
     sh('git checkout -- . && git status --porcelain --untracked-files=no')
 rc, out = run_demo()
 meta['demo_after_revert'] = {'rc': rc}
+if prev is not None:
+    hist = prev.pop('history', [])
+    hist.append({k: prev.get(k) for k in ('at', 'repo_head', 'caught_by', 'tests_with_patch')})
+    meta['history'] = hist
+    for k in ('change', 'needs_to_manifest'):
+        if k in prev and k not in meta:
+            meta[k] = prev[k]
+meta['tree'] = 'scratch worktree of HEAD' if SCRATCH else '/repo working tree'
+if SCRATCH:
+    subprocess.run('git -C /repo worktree remove --force %s; git -C /repo worktree prune' % TREE, shell=True,
+                   stdout=subprocess.DEVNULL, stderr=subprocess.DEVNULL)
 meta['caught_by'] = sorted(c for c, r in meta['checks'].items() if any(x['caught'] for x in r))
 json.dump(meta, open(os.path.join(dst, 'meta.json'), 'w'), indent=1)
 print(json.dumps({k: meta[k] for k in ('name', 'property', 'tests_with_patch', 'caught_by') if k in meta}))
